@@ -249,7 +249,12 @@ def run_one(ctx, rng, cands, spec):
             script.append(cmd)
             if kk is None:
                 continue
-            for N in sorted(set([0, 1, max(1, kk - 1), max(1, kk), kk + 1, 10**6]))[:rng.choice([2, 4, 6])]:
+            caps = sorted(set([0, 1, max(1, kk - 1), max(1, kk), kk + 1, 10**6]))[:rng.choice([2, 4, 6])]
+            if kk > 258:
+                # long histories: COUNT values in the hundreds, below the number of matches
+                caps = sorted(set(caps + [255, 256, 257, 258, rng.randint(259, kk), kk - 1]))
+                ctx.count('queries_with_more_than_258_matches')
+            for N in caps:
                 c2 = cmd + (rng.choice([' ~ %d', ' ~%d', '~ %d']) if cmd != 'list' else rng.choice([' ~ %d', ' ~%d'])) % N
                 mon.query(s, c2, ast, N, None, repeat=False)
                 script.append(c2)
@@ -340,7 +345,8 @@ def run(ctx, spec):
     env.setup()
     cands = wlxml.shipped(env.REPO)
     for i in range(spec['n']):
-        run_one(ctx, ctx.rng, cands, spec)
+        # one long history per shard (several hundred recorded messages), the others short
+        run_one(ctx, ctx.rng, cands, spec if i else dict(spec, n_each=[300, 420], queries=6))
         if i % 2 == 0:
             run_late(ctx, ctx.rng, cands, spec)
         if ctx.out_of_time():
